@@ -43,6 +43,8 @@ def check_C17(tier, seed):
     out.replayed += len(vectors)
     out.samples += [core.sample_of([[s["op"], s["arg"], s["outcome"], s["results"]] for s in v["hist"]]) for v in vectors[:: max(1, len(vectors) // 3)][:3]]
     out.judge(core.for_property(bad, "C17"), "stockobject", sig_so)
+    from .checks_stock_traces import run_stock_traces
+    run_stock_traces(out, "C17", tier)
     out.exhaustive = True
     out.assumptions += [
         "two (thorough: three) drivers, one of them all zero, and two parameter sets per lifetime model (scalar and per-label); dims time x 2 regions / time only / time x 1 region; all six lifetime models (fixed, step, normal, folded "
